@@ -83,7 +83,7 @@ def findRhsAux : List Tok → Nat → List Char → Option Nat
         | top :: rest => if top != opener then none else findRhsAux ts (i + 1) rest
         | [] => none
     else if !ctx.isEmpty then findRhsAux ts (i + 1) ctx
-    else if t.text == ['~'] then some i
+    else if t.kind == some .operator && t.text == ['~'] then some i
     else findRhsAux ts (i + 1) ctx
 
 def findRhsIndex (ts : List Tok) : Option Nat := findRhsAux ts 0 []
